@@ -965,6 +965,7 @@ MUTANTS = [
     _m("unpack-prolongations-swapped", "inv_A_ss, b_s, A_sp, prolong_p, prolong_s = self._Schur_complement", "inv_A_ss, b_s, A_sp, prolong_s, prolong_p = self._Schur_complement", "R1", control=True),
     _m("pack-prolongations-swapped", "            A_sp,\n            primary_projection,\n            secondary_projection,\n        )", "            A_sp,\n            secondary_projection,\n            primary_projection,\n        )", "R1"),
     _m("pack-stores-A_ps", "            b_s,\n            A_sp,\n            primary_projection,", "            b_s,\n            A_ps,\n            primary_projection,", "R1"),
+    _m("inverse-of-wrong-matrix", "        inv_A_ss = inverter(A_ss)\n", "        inv_A_ss = inverter(A_s)\n", "R1"),
     _m("A_ps-wrong-projection", "        A_ps = A_p * secondary_projection\n", "        A_ps = A_p * primary_projection\n", "R1"),
     _m("A_sp-from-primary-rows", "        A_sp = A_s * primary_projection\n", "        A_sp = A_p * primary_projection\n", "R1"),
     _m("X-minus", "        X = prolong_p * reduced_solution + prolong_s * x_s\n", "        X = prolong_p * reduced_solution - prolong_s * x_s\n", "R1"),
@@ -977,6 +978,11 @@ MUTANTS = [
     _m("excluded-rows-to-primary", "                    A_sec.append(A_temp[idx_excl_p])\n                    b_sec.append(b_temp[idx_excl_p])\n",
        "                    A_prim.append(A_temp[idx_excl_p])\n                    b_prim.append(b_temp[idx_excl_p])\n", "R2"),
     _m("secondary-rhs-to-primary-list", "                A_sec.append(A_temp)\n                b_sec.append(b_temp)\n", "                A_sec.append(A_temp)\n                b_prim.append(b_temp)\n", "R2"),
+    _m("secondary-loop-ignores-state", "                A_temp, b_temp = self.assemble(equations=[name], state=state)\n                A_sec.append(A_temp)\n",
+       "                A_temp, b_temp = self.assemble(equations=[name])\n                A_sec.append(A_temp)\n", "R2"),
+    _m("primary-blocks-only-primary-columns", "                A_temp, b_temp = self.assemble(equations=[name], state=state)\n                idx_p = primary_rows[name]\n",
+       "                A_temp, b_temp = self.assemble(equations=[name], variables=active_variables, state=state)\n                idx_p = primary_rows[name]\n", "R2"),
+    _m("cache-test-inverted", "        if not self._secondary_block_permutation:\n", "        if self._secondary_block_permutation:\n", "R4"),
     _m("complement-of-other-dict", "excluded_primary_rows = self._gridbased_equation_complement(primary_rows)", "excluded_primary_rows = self._gridbased_equation_complement(self._parse_equations(None))", "R2"),
     _m("secondary-loop-over-set-list", "        for name in self._equations:\n            # Secondary equations (those not explicitly given as being primary) are\n            # assembled wholesale to the secondary block.\n            if name in secondary_equation_names:\n",
        "        for name in secondary_equation_names:\n            # Secondary equations (those not explicitly given as being primary) are\n            # assembled wholesale to the secondary block.\n            if name in secondary_equation_names:\n", "R3"),
